@@ -27,9 +27,9 @@ const (
 // every block-boundary snapshot.
 type C13 struct{ relations int64 }
 
-func (m *C13) ID() string                        { return "C13" }
+func (m *C13) ID() string                          { return "C13" }
 func (m *C13) Tx(w *world.World, e *world.TxEvent) {}
-func (m *C13) Done(w *world.World)               { w.Count("c13.relations_evaluated", m.relations) }
+func (m *C13) Done(w *world.World)                 { w.Count("c13.relations_evaluated", m.relations) }
 
 func (m *C13) Block(w *world.World, e *world.BlockEvent) {
 	s := e.Post
@@ -152,9 +152,9 @@ func sortedMetaKeys(s *mon.State) []string {
 // C14 checks the aggregate counters against sums over live shards and pledges.
 type C14 struct{ checks int64 }
 
-func (m *C14) ID() string                        { return "C14" }
+func (m *C14) ID() string                          { return "C14" }
 func (m *C14) Tx(w *world.World, e *world.TxEvent) {}
-func (m *C14) Done(w *world.World)               { w.Count("c14.equalities_evaluated", m.checks) }
+func (m *C14) Done(w *world.World)                 { w.Count("c14.equalities_evaluated", m.checks) }
 
 func (m *C14) Block(w *world.World, e *world.BlockEvent) {
 	s := e.Post
